@@ -6,6 +6,8 @@ import (
 	"go/parser"
 	"go/token"
 	"path/filepath"
+	"slices"
+	"strings"
 
 	"github.com/bmatcuk/doublestar/v4"
 	MapSet "github.com/deckarep/golang-set/v2"
@@ -53,6 +55,13 @@ func (facade *PackagesFacade) GetAllSourceFiles() []*ast.File {
 		result = append(result, file)
 	}
 	result = verifhook.Permute("source-files", result, func(f *ast.File) string { return gast.GetAstFileName(facade.fileSet, f) })
+
+	// Map iteration order is random - hand the files out in a stable order so that everything derived from
+	// the traversal (receiver order, import serials) does not change from one run to the next
+	slices.SortFunc(result, func(a, b *ast.File) int {
+		return strings.Compare(gast.GetAstFileName(facade.fileSet, a), gast.GetAstFileName(facade.fileSet, b))
+	})
+
 	return result
 }
 
